@@ -194,6 +194,17 @@ def r3(p, rep):
             dup = names.get(bn)
             names[bn] = site
             rep.add("C11.R3", key + ":unique", site, dup is None, "name is unique" if dup is None else f"backend name {bn!r} is also registered at {dup}: the later registration silently replaces the earlier one in name lookups")
+            # the factory registered under a label returns that very name (the returned name is what ends up in
+            # name_to_backend; the label is only used for the placeholder of a failed import)
+            if isinstance(fac, ast.Name):
+                facs = [g for g in p.funcs.values() if g.module is m and g.parent is None and g.name == fac.id]
+                for g in facs:
+                    rnames = {_const(r.value.elts[-1]) for r in walk_no_nested(g.node) if isinstance(r, ast.Return) and isinstance(r.value, ast.Tuple) and r.value.elts and isinstance(_const(r.value.elts[-1]), str)}
+                    bnames = {_const(common.kwarg(c, "name")) for c in walk_no_nested(g.node) if isinstance(c, ast.Call) and isinstance(_const(common.kwarg(c, "name")), str) and norm(c.func).split(".")[-1] == "Backend"}
+                    got = rnames | bnames
+                    if got:
+                        ok = got == {bn}
+                        rep.add("C11.R3", key + ":factory-returns-label", site, ok, f"{fac.id} builds the backend named {bn!r}" if ok else f"{fac.id} is registered under {bn!r} but builds the backend named {sorted(got)}: the name table is rebound to another backend once this factory runs (later lookups of {sorted(got)} resolve differently than in a fresh process)")
             dname = defaults.get(fw, (None, None, None))[1]
             if dname is not None:
                 scheme = bn == dname or (isinstance(bn, str) and bn.startswith(dname + "."))
@@ -374,6 +385,136 @@ def r7(p, rep):
         rep.add("C11.R7", f"{f.qualname}:return:{norm(r.value)[:40]}", site, bad is None, f"on all {n_paths} paths the last fact before the return is `{name} in name_to_backend`" if bad is None else f"a path reaches `return {norm(r.value)[:40]}` without having established that `{name}` is registered (after the import scan the name is not looked up again): the lookup returns None / raises KeyError instead of the documented ValueError, depending on what was imported before")
 
 
+# reviewed deviations of one factory module from its siblings: (function, callee or nested helper, framework) -> reason
+SIBLING_DEVIATIONS = {
+    ("_backend_creator", "adapter.namedtensor_calltensorfactory.ops", "arrayapi"): "array-api tensors are created inside the namespace context of the call (context=...): the namespace is only known from the arguments",
+    ("adapt_numpylike_elementwise", "adapter.namedtensor_calltensorfactory.op", "arrayapi"): "same namespace context as _backend_creator",
+    ("adapt_numpylike_reduce", "adapter.namedtensor_calltensorfactory.op", "arrayapi"): "same namespace context as _backend_creator",
+    ("_get_backend_kwargs", "tracer.signature.python.import_", "torch"): "`import torch` needs no alias",
+    ("_get_backend_kwargs", "tracer.signature.python.import_", "tinygrad"): "`import tinygrad` needs no alias",
+    ("_get_backend_kwargs", "is_supported_tensor", "arrayapi"): "array-api has no tensor class: support is decided by array_namespace() accepting the object",
+    ("_get_backend_kwargs", "get_shape", "arrayapi"): "array-api also accepts Python / numpy scalars (shape ())",
+}
+
+
+def _normalised_body(fnode, ns_names):
+    """structure of a small helper with parameter names and framework-specific names abstracted"""
+    params = [a.arg for a in fnode.args.posonlyargs + fnode.args.args]
+
+    class N(ast.NodeTransformer):
+        def visit_Name(self, n):
+            if n.id in params:
+                return ast.copy_location(ast.Name(id=f"_p{params.index(n.id)}", ctx=n.ctx), n)
+            if n.id in ns_names:
+                return ast.copy_location(ast.Name(id="_NS", ctx=n.ctx), n)
+            return n
+
+        def visit_Attribute(self, n):
+            ch = attr_chain(n)
+            if ch and ch[0] in ns_names:
+                return ast.copy_location(ast.Name(id="_NS", ctx=ast.Load()), n)
+            return self.generic_visit(n)
+
+    from sa.cfg import _clone
+
+    body = [N().visit(_clone(st)) for st in fnode.body if not (isinstance(st, ast.Expr) and isinstance(st.value, ast.Constant))]
+    # local comprehension variables are irrelevant to the structure
+    return "\n".join(ast.dump(b, annotate_fields=False).replace("'x'", "'_v'").replace("'i'", "'_v'").replace("'s'", "'_v'") for b in body)
+
+
+def r8(p, rep):
+    rep.rule("C11.R8", "the factory modules of the seven frameworks are written to one pattern: the same einx building blocks are called with the same options, and the per-backend helpers (tensor test, shape query) have the same form", "T-SIB (majority form across sibling modules, reviewed deviations)", floor=30)
+    import collections
+
+    mods = backends.impl_modules(p)
+    byname = collections.defaultdict(dict)
+    for fw, m in mods.items():
+        for f in p.funcs.values():
+            if f.module is m and f.parent is None and f.cls is None:
+                byname[f.name][fw] = f
+    for name, fws in sorted(byname.items()):
+        if len(fws) < 3:
+            continue
+        # (A) calls of einx building blocks: keyword sets
+        sk = {}
+        for fw, f in fws.items():
+            d = collections.defaultdict(set)
+            for c in ast.walk(f.node):
+                if isinstance(c, ast.Call):
+                    ch = attr_chain(c.func)
+                    if ch and ch[0] in ("adapter", "tracer") and len(ch) >= 2:
+                        d[".".join(ch)].add(frozenset(k.arg for k in c.keywords if k.arg))
+            sk[fw] = d
+        callees = {c for d in sk.values() for c in d}
+        for callee in sorted(callees):
+            users = [fw for fw in sk if callee in sk[fw]]
+            if len(users) < 3:
+                continue
+            forms = collections.Counter(ks for fw in users for ks in sk[fw][callee])
+            maj, cnt = forms.most_common(1)[0]
+            if cnt < 2 or list(forms.values()).count(cnt) > 1:
+                continue  # no clear majority form
+            for fw in users:
+                for ks in sk[fw][callee]:
+                    key = f"{fws[fw].qualname}:{callee}:keywords"
+                    site = fws[fw].loc
+                    if ks == maj:
+                        rep.ok("C11.R8", key, site, f"{callee}(...) is called with {sorted(ks)} like its siblings")
+                    elif (name, callee, fw) in SIBLING_DEVIATIONS:
+                        rep.exempt("C11.R8", key, site, SIBLING_DEVIATIONS[(name, callee, fw)])
+                    else:
+                        miss, extra = sorted(maj - ks), sorted(ks - maj)
+                        rep.violation("C11.R8", key, site, f"{fw}.{name} calls {callee}(...) " + (f"without {miss} " if miss else "") + (f"with extra {extra} " if extra else "") + f"while {cnt} of {len(users)} sibling modules pass {sorted(maj)}: this backend alone behaves differently for the cases those options exist for")
+        # (B) nested helpers of the same name: same structure
+        nested = collections.defaultdict(dict)
+        for fw, f in fws.items():
+            ns = set(backends_ns_names(p, mods[fw]))
+            for g in p.funcs.values():
+                if g.parent is f and isinstance(g.node, ast.FunctionDef):
+                    nested[g.name][fw] = (g, _normalised_body(g.node, ns))
+        for hname, impls in sorted(nested.items()):
+            if len(impls) < 4:
+                continue
+            forms = collections.Counter(b for g, b in impls.values())
+            maj, cnt = forms.most_common(1)[0]
+            if cnt < 3:
+                continue
+            for fw, (g, b) in impls.items():
+                key = f"{g.qualname}:form"
+                if b == maj:
+                    rep.ok("C11.R8", key, g.loc, f"{hname} has the form shared by {cnt} of {len(impls)} backends")
+                elif (name, hname, fw) in SIBLING_DEVIATIONS:
+                    rep.exempt("C11.R8", key, g.loc, SIBLING_DEVIATIONS[(name, hname, fw)])
+                else:
+                    rep.violation("C11.R8", key, g.loc, f"{fw}.{name}.{hname} is written differently from the {cnt} sibling backends that agree (`{norm(g.node.body[-1])[:80]}`): tensors are accepted / shapes are reported by another rule on this backend only (e.g. array-likes of other frameworks accepted, unknown dimensions mapped to a sentinel)")
+
+
+def backends_ns_names(p, module):
+    """names that stand for the framework in a factory module: its imports other than einx / stdlib helpers, and
+    locals derived from them at module or function level"""
+    names = set()
+    for st in ast.walk(module.tree):
+        if isinstance(st, ast.Import):
+            for a in st.names:
+                nm = a.asname or a.name.split(".")[0]
+                if not a.name.startswith("einx") and a.name.split(".")[0] not in ("functools", "types", "inspect", "threading", "importlib", "sys", "os"):
+                    names.add(nm)
+        elif isinstance(st, ast.ImportFrom) and st.module and not st.module.startswith("einx") and st.level == 0:
+            for a in st.names:
+                names.add(a.asname or a.name)
+    changed = True
+    while changed:
+        changed = False
+        for a in ast.walk(module.tree):
+            if isinstance(a, ast.Assign) and len(a.targets) == 1 and isinstance(a.targets[0], ast.Name) and a.targets[0].id not in names:
+                ch = attr_chain(a.value) if isinstance(a.value, (ast.Attribute, ast.Name)) else None
+                roots = {x.id for x in ast.walk(a.value) if isinstance(x, ast.Name)}
+                if (ch and ch[0] in names) or (isinstance(a.value, (ast.Tuple, ast.BinOp)) and roots and roots <= names):
+                    names.add(a.targets[0].id)
+                    changed = True
+    return names
+
+
 def run(p, rep, tier):
     r1(p, rep)
     r2(p, rep)
@@ -382,6 +523,7 @@ def run(p, rep, tier):
     r5(p, rep)
     r6(p, rep)
     r7(p, rep)
+    r8(p, rep)
     from . import c06, c10
 
     rep.rule("C06.R5", "no hidden state survives a lookup: no mutable default arguments", "inventory", floor=50)
